@@ -180,16 +180,24 @@ def star(draw, roadm_lib, zero='never', force_variety=None, overrides=True):
             if key in p:
                 prof[kind].append(p['roadm-path-impairments-id'])
     per = []
+
+    def pick(ids):
+        # prefer a profile that is not the first one of its kind (the first is what applies when nothing is named), and the
+        # id 0 when there is one
+        later = ids[1:]
+        if 0 in later and draw(st.booleans()):
+            return 0
+        return draw(st.sampled_from(later if later and draw(st.booleans()) else ids))
     ins = [d['ingress'] for d in degrees if d['ingress']]
     for src in ins:
         for dst in named:
             if prof['express'] and draw(st.integers(0, 2)) == 0:
-                per.append({'from_degree': src, 'to_degree': dst, 'impairment_id': draw(st.sampled_from(prof['express']))})
+                per.append({'from_degree': src, 'to_degree': dst, 'impairment_id': pick(prof['express'])})
         if prof['drop'] and draw(st.integers(0, 2)) == 0:
-            per.append({'from_degree': src, 'to_degree': 'trx R0', 'impairment_id': draw(st.sampled_from(prof['drop']))})
+            per.append({'from_degree': src, 'to_degree': 'trx R0', 'impairment_id': pick(prof['drop'])})
     for dst in named:
         if prof['add'] and draw(st.integers(0, 2)) == 0:
-            per.append({'from_degree': 'trx R0', 'to_degree': dst, 'impairment_id': draw(st.sampled_from(prof['add']))})
+            per.append({'from_degree': 'trx R0', 'to_degree': dst, 'impairment_id': pick(prof['add'])})
     if per:
         params['per_degree_impairments'] = per
     return {'elements': elements, 'connections': connections}, degrees
